@@ -420,7 +420,18 @@ var c09frombig = Register("C09", "C09.frombigfloat", func(a c09FromBigArgs) *Vio
 // ---- generators ------------------------------------------------------------------
 
 func genFloat64Bits(t *rapid.T) uint64 {
-	switch ir(t, 0, 9, "f64Kind") {
+	switch ir(t, 0, 11, "f64Kind") {
+	case 10, 11:
+		// integer-valued floats whose exact expansion has 34..40 digits: the multi-digit arms of the 256-bit
+		// reducer (strip four, three, two digits at once, each with its own sticky rule) are decided by the last
+		// few digits of an integer that is a multiple of a large power of two, and the binary exponents
+		// -120..-1 with short mantissas, whose expansions end in ...5 (exact ties at the 34th/35th digit)
+		if ir(t, 0, 3, "fraction") == 0 {
+			m := uint64(ir(t, 1, 1<<22, "m")) | 1
+			return math.Float64bits(math.Ldexp(float64(m), -ir(t, 90, 125, "k"))) | uint64(ir(t, 0, 1, "s"))<<63
+		}
+		e := uint64(1023 + ir(t, 110, 133, "binexp"))
+		return uint64(ir(t, 0, 1, "s"))<<63 | e<<52 | u64(t, "mant")&(1<<52-1)
 	case 0, 1, 2:
 		return u64(t, "bits")
 	case 3:
@@ -456,7 +467,10 @@ func genFloat64Bits(t *rapid.T) uint64 {
 }
 
 func genFloat32Bits(t *rapid.T) uint32 {
-	switch ir(t, 0, 3, "f32Kind") {
+	switch ir(t, 0, 4, "f32Kind") {
+	case 4:
+		// the top binades of float32 (2^110..2^127): 34..39 digit integers, as above
+		return uint32(ir(t, 0, 1, "s"))<<31 | uint32(127+ir(t, 108, 127, "binexp"))<<23 | u32(t, "mant")&(1<<23-1)
 	case 0:
 		return u32(t, "sub") & (1<<23 - 1)
 	case 1:
